@@ -88,6 +88,11 @@ class Sys(e1.TimedSys):
         c.abstract_incoming = True
         return canon.key_of((c.snapshot(self.roots()), self.key_extra()))
 
+    def key_extra(self):
+        sr = self.step_reboot
+        pend = None if sr is None else (sr[0], tuple(sorted(sr[1])))
+        return super().key_extra() + (pend, tuple(self.expected_acks))
+
     def actions(self):
         m = self.model
         held = [h.args[0] for h in self.held]
